@@ -51,13 +51,16 @@ Natural(c) == IF c.lts # "none" THEN "datetime64[" \o c.lts \o "]"
    absent   - the file has no pandas metadata at all
    natural  - the plain numpy dtype (what pandas.DataFrame.to_parquet writes for non-nullable columns)
    nullable - the masked extension dtype name (Int64, boolean ...), only for int-like columns
-   coarser  - datetime columns only: the frame had second resolution (datetime64[s]) while the file stores ms *)
+   coarser  - datetime columns only: the frame had second resolution (datetime64[s]) while the file stores ms
+   tz       - datetime columns only: the entry carries metadata {"timezone": "UTC"} next to numpy_type datetime64[ns] *)
 MdType(c, k) == CASE k = "absent" -> "-"
                   [] k = "natural" -> Natural(c)
                   [] k = "nullable" -> NullableOf(Natural(c))
                   [] k = "coarser" -> "datetime64[s]"
+                  [] k = "tz" -> "datetime64[ns]"
 ValidMd(c, k) == /\ (k = "nullable" => IntLike(Natural(c)))
                  /\ (k = "coarser" => IsDatetime(Natural(c)) /\ Natural(c) = "datetime64[ms]")
+                 /\ (k = "tz" => IsDatetime(Natural(c)) /\ c.pt = "INT64")
 
 Typemap(c, k) ==
   LET nt == MdType(c, k) IN
@@ -72,7 +75,8 @@ MayHaveNulls(st) == st \in {"absent", "some"}
 
 Announce(c, k, st, pandasNulls) ==
   LET t == Typemap(c, k) IN
-  IF IsDatetime(t) THEN (IF k # "absent" THEN MdType(c, k) ELSE t)          \* original resolution from the pandas metadata
+  IF IsDatetime(t) THEN (IF k = "tz" THEN "datetime64[ns, UTC]"             \* localised with the recorded time zone
+                         ELSE IF k # "absent" THEN MdType(c, k) ELSE t)     \* original resolution from the pandas metadata
   ELSE IF IntLike(t) THEN
          IF k # "absent" /\ IntLike(MdType(c, k)) THEN t                       \* metadata says a plain numpy int/bool: kept
          ELSE IF MayHaveNulls(st) THEN (IF pandasNulls THEN NullableOf(t) ELSE "float64")
